@@ -827,7 +827,7 @@ func ghostDirs(o *op) []string {
 	add := func(literal string) {
 		literal = strings.TrimSuffix(literal, "/")
 		c := path.Clean(literal)
-		if c == literal || within(c, bucketDir) || seen[literal] || len(literal) > 900 {
+		if c == literal || c == bucketDir || within(c, bucketDir) || seen[literal] || len(literal) > 900 {
 			return
 		}
 		seen[literal] = true
